@@ -4,6 +4,7 @@ and resolves module-level names.  Nothing under /repo is imported or run."""
 from __future__ import annotations
 
 import ast
+import re
 import os
 import sys
 from typing import Dict, List, Optional, Tuple
@@ -100,8 +101,25 @@ def _decorator_names(node) -> List[str]:
 
 
 class Program:
-    def __init__(self, root: Optional[str] = None, only: Optional[List[str]] = None):
+    def __init__(self, root: Optional[str] = None, only: Optional[List[str]] = None, _renaming: Optional[Dict[str, str]] = None):
         self.root = root or repo_root()
+        self.renamed: Dict[str, str] = dict(_renaming or {})
+        self._load(only)
+        if _renaming is None and not only:
+            # private names are not behaviour: if the tree names the private state of its value classes differently
+            # from the models' vocabulary, the consistently renamed program is analysed (qsa/roles.py)
+            from . import roles
+            mapping = roles.derive(self)
+            if mapping:
+                for c in set(mapping.values()) - set(mapping):
+                    pat = re.compile(r"(?<![A-Za-z0-9_])" + re.escape(c) + r"(?![A-Za-z0-9_])")
+                    if any(pat.search(m.source) for m in self.modules.values()):
+                        raise AnalysisError(f"private name {c} is used by the tree for something else than its role "
+                                            f"in the models' vocabulary ({[a for a, b in mapping.items() if b == c]})")
+                self.renamed = mapping
+                self._load(only)
+
+    def _load(self, only):
         self.modules: Dict[str, Module] = {}
         self.classes: Dict[str, ClassInfo] = {}
         self.parsed_files: List[str] = []
@@ -128,6 +146,9 @@ class Program:
                 raise AnalysisError(f"module file missing: {rel}")
             with open(path, encoding="utf-8") as fh:
                 src = fh.read()
+            if self.renamed:
+                from .roles import substitute
+                src = substitute(src, self.renamed)
             try:
                 tree = ast.parse(src, filename=path)
             except SyntaxError as e:
